@@ -428,10 +428,26 @@ func runProperty(prop, tier, repo, verif string, opts RunOpts, workers int, noRe
 			for _, i := range witByPkg[pkg] {
 				cases = append(cases, NativeCase{witnesses[i].Harness, witnesses[i].Inputs})
 			}
+			// the driver package is the one with a goroutine: its replays run under
+			// the race detector, which cross-checks the sequentialised model — a
+			// race the executor did not predict means the model missed a schedule
+			raceMode = pkg == "driver"
 			nres, out, err := nativeRun(P, pkg, cases)
+			raceMode = false
 			if err != nil {
 				inconclusive = append(inconclusive, "native replay failed: "+err.Error())
 				continue
+			}
+			if pkg == "driver" && strings.Contains(out, "WARNING: DATA RACE") {
+				predicted := false
+				for _, i := range byPkg[pkg] {
+					if pending[i].v.Kind == "race" {
+						predicted = true
+					}
+				}
+				if !predicted {
+					inconclusive = append(inconclusive, "go test -race reports a data race on a replayed path that the happens-before bookkeeping did not predict: "+lastLines(out[strings.Index(out, "WARNING: DATA RACE"):], 12))
+				}
 			}
 			allMissing := true
 			for _, r := range nres {
